@@ -2,7 +2,7 @@
    (Gen/*.v) are equal to the hand models the proofs are about.  The tactic is
    shape-insensitive: unfold, case-split every boolean, reflexivity / lia. *)
 From Coq Require Import List ZArith Lia Bool String.
-From GL Require Import Model.Dom Model.Scalar Gen.ScalarFuncsGen Gen.ReductionOpsGen Gen.TablesGen.
+From GL Require Import Model.Dom Model.Scalar Model.Factorize Gen.ScalarFuncsGen Gen.ReductionOpsGen Gen.TablesGen Gen.FactorizeGen.
 Open Scope Z_scope.
 
 Ltac split_ifs :=
@@ -67,3 +67,9 @@ Lemma tie_kernel_reducers : gen_kernel_reducers = kernel_reducers.
 Proof. reflexivity. Qed.
 Lemma tie_direct_reducers : gen_direct_reducers = direct_reducers.
 Proof. reflexivity. Qed.
+
+(* the mixed-radix kernel regenerated from factorization.py is the model the C02 theorems are about *)
+Lemma tie_wcs_loop cw : forall out, g_wcs_loop cw out = wcs cw out.
+Proof. induction cw as [|[c w] t IH]; intros out; cbn [g_wcs_loop wcs]; auto; try (destruct (c =? -1); auto). Qed.
+Lemma tie_weight_code_sum codes weights : g_weight_code_sum codes weights = weight_code_sum codes weights.
+Proof. unfold g_weight_code_sum, weight_code_sum. rewrite tie_wcs_loop. reflexivity. Qed.
